@@ -217,7 +217,20 @@ def translate(repo):
         pynorm.check_package(repo); pynorm.check_bindings(tree)               # every name the translator reads by its spelling means what it says
     except pynorm.Binding as e:
         raise Unsupported(f"cvn: {e}")
-    tree = pynorm.normalise_light(tree)           # module constants, chained comparisons, conditional expressions
+    sigs = {}
+    for mod in ("ac", "kd", "sm"):
+        try:
+            t = ast.parse(open(f"{repo}/pyemv/{mod}.py").read())
+        except Exception:  # noqa: BLE001
+            continue
+        for n in t.body:
+            if isinstance(n, ast.FunctionDef) and not (n.args.vararg or n.args.kwarg or n.args.kwonlyargs or n.args.posonlyargs):
+                sigs[f"_{mod}.{n.name}"] = [a.arg for a in n.args.args]
+    # module constants, chained comparisons, conditional expressions, `is not None` with an else, keyword arguments
+    tree = pynorm.normalise_light(tree, signatures=sigs)
+    tree = pynorm.inline_expression_helpers(tree, set())   # module-level private helpers called from the methods
+    tree = pynorm.inline_helpers(tree, set())
+    ast.fix_missing_locations(tree)
     out = ["import PyemvModel.Cvn",
            "/-! GENERATED by harness/translate_cvn.py from pyemv/cvn.py — do not edit. -/",
            "namespace Pyemv.CvnGen", "open Pyemv", ""]
